@@ -67,6 +67,40 @@ def _bitop(op, a: Union[bl.SymbolicInt, int], b: Union[bl.SymbolicInt, int]):
     # times out and is reported inconclusive).  An Int2BV/BV2Int encoding was tried and stalls z3.
     return op(realize(a), realize(b))
 bl.setup_binop(_bitop, {ops.or_, ops.xor})
+
+
+# 3b. `x & MASK` with a concrete non-negative mask: sum over the mask's runs of set bits of
+#     ((x div 2^k) mod 2^m) * 2^k  -- exact for x >= 0, stays in linear integer arithmetic with constant div/mod.
+def _runs(mask):
+    out, k = [], 0
+    while mask >> k:
+        if (mask >> k) & 1:
+            m = 0
+            while (mask >> (k + m)) & 1:
+                m += 1
+            out.append((k, m))
+            k += m
+        else:
+            k += 1
+    return out
+
+
+def _andop(op, a: Union[bl.SymbolicInt, int], b: Union[bl.SymbolicInt, int]):
+    with NoTracing():
+        sa, sb = isinstance(a, bl.SymbolicInt), isinstance(b, bl.SymbolicInt)
+        if not sa and not sb:
+            return op(a, b)
+        if sa != sb:
+            sym, con = (a, b) if sa else (b, a)
+            if isinstance(con, int) and not isinstance(con, bool) and 0 <= con < 2 ** 64:
+                space = context_statespace()
+                if space.smt_fork(sym.var >= 0, probability_true=0.98):
+                    if con == 0:
+                        return 0
+                    terms = [((sym.var / (2 ** k)) % (2 ** m)) * (2 ** k) for k, m in _runs(con)]
+                    return bl.SymbolicInt(z3.Sum(terms) if len(terms) > 1 else terms[0])
+    return op(realize(a), realize(b))
+bl.setup_binop(_andop, {ops.and_})
 bl._BIN_OPS.clear()
 
 # 4. struct.unpack_from: CrossHair slices buffer[offset:] and calls unpack (exact-size) -> spurious error
@@ -113,3 +147,27 @@ chcore._PATCH_REGISTRATIONS[format] = _format
 # 7. never "short-circuit" calls into the code under test (CrossHair may replace a call by a fresh
 #    symbolic return value when it thinks the callee has a contract); bumble has no contracts.
 chcore.ShortCircuitingContext.make_interceptor = lambda self, original: original
+
+
+# 8. Formatting is not the subject of any property: bumble builds log strings eagerly (f-strings with
+#    {pdu}) even when logging is disabled, and formatting symbolic field values forks on every digit.
+#    PDU pretty-printers therefore get empty bodies under the tracer (DESIGN 2.2; replays use the real ones).
+def stub_formatting():
+    from bumble import hci as _hci
+    _hci.HCI_Object.format_fields = staticmethod(lambda *a, **k: '')
+    _hci.HCI_Object.stringify_field = staticmethod(lambda *a, **k: '')
+    _hci.HCI_Object.format_field_value = staticmethod(lambda *a, **k: '')
+    try:
+        from bumble import att as _att, smp as _smp, l2cap as _l2cap, sdp as _sdp
+        for cls in [_att.ATT_PDU] + list(_att.ATT_PDU.pdu_classes.values()):
+            cls.__str__ = lambda self: self.name
+        for cls in [_smp.SMP_Command] + list(_smp.SMP_Command.smp_classes.values()):
+            cls.__str__ = lambda self: self.name
+        for cls in [_l2cap.L2CAP_Control_Frame] + list(_l2cap.L2CAP_Control_Frame.classes.values()):
+            cls.__str__ = lambda self: self.name
+        _sdp.DataElement.to_string = lambda self, *a, **k: 'element'
+    except Exception:
+        pass
+
+
+stub_formatting()
